@@ -109,6 +109,12 @@ fn main() -> ExitCode {
             || first_arg.starts_with("--config")
             || first_arg.starts_with("/c")
         {
+            // the option needs its value: `fselect -c` alone is an error, not an index past the arguments
+            if args.len() < 2 {
+                error_message(&args[0], "the path of a configuration file is expected after this option");
+                return ExitCode::from(2);
+            }
+
             let config_path = args[1].to_ascii_lowercase();
             config = match Config::from(PathBuf::from(&config_path)) {
                 Ok(cnf) => cnf,
